@@ -157,4 +157,27 @@ func init() {
 		Variant{Name: "re-unmarshal error swallowed", Property: "C17", File: rep,
 			Old: "\tif err := vMarshaler.Unmarshal(repaired); err != nil {\n\t\treturn fmt.Errorf(\"failed to re-unmarshal message %T after repair: %w\", v, err)\n\t}", New: "\t_ = vMarshaler.Unmarshal(repaired)", Expect: "O17.2"},
 	)
+	// ---- C19
+	tlsf := "encryption/tls.go"
+	rcv := "transport/mux/receiver.go"
+	addVariants(
+		Variant{Name: "RequireAnyClientCert (certificate required but never verified)", Property: "C19", File: tlsf,
+			Old: "tlsConfig.ClientAuth = tls.RequireAndVerifyClientCert", New: "tlsConfig.ClientAuth = tls.RequireAnyClientCert", Expect: "O19.1"},
+		Variant{Name: "VerifyClientCertIfGiven (no certificate admitted)", Property: "C19", File: tlsf,
+			Old: "tlsConfig.ClientAuth = tls.RequireAndVerifyClientCert", New: "tlsConfig.ClientAuth = tls.VerifyClientCertIfGiven", Expect: "O19.1"},
+		Variant{Name: "client always skips verification", Property: "C19", File: tlsf,
+			Old: "\ttlsConfig.InsecureSkipVerify = clientConfig.SkipCAVerification\n", New: "\ttlsConfig.InsecureSkipVerify = clientConfig.SkipCAVerification || clientConfig.RemoteCAPath == \"\"\n", Expect: "O19.2"},
+		Variant{Name: "GetConfigForClient substitutes a config without ClientCAs", Property: "C19", File: tlsf,
+			Old: "\t\t\t\t\ttag.Error(err), tag.NewStringTag(\"tlsConfig\", fmt.Sprintf(\"%+v\", tlsConfig)))\n\t\t\t}\n\t\t}\n\t\treturn nil, nil", New: "\t\t\t\t\ttag.Error(err), tag.NewStringTag(\"tlsConfig\", fmt.Sprintf(\"%+v\", tlsConfig)))\n\t\t\t\tfallback := tlsConfig.Clone()\n\t\t\t\tfallback.ClientAuth = tls.NoClientCert\n\t\t\t\treturn fallback, nil\n\t\t\t}\n\t\t}\n\t\treturn nil, nil", Expect: "O19.1"},
+		Variant{Name: "CA load error ignored on the server side", Property: "C19", File: tlsf,
+			Old: "\t\ttlsConfig.ClientCAs, err = fetchCACert(serverConfig.RemoteCAPath)\n\t\tif err != nil {\n\t\t\treturn nil, fmt.Errorf(\"failed to read CACert from %s: %w\", serverConfig.RemoteCAPath, err)\n\t\t}", New: "\t\ttlsConfig.ClientCAs, err = fetchCACert(serverConfig.RemoteCAPath)\n\t\tif err != nil {\n\t\t\tlogger.Warn(\"no CA\")\n\t\t\terr = nil\n\t\t}", Expect: "O19.1"},
+		Variant{Name: "bundle without a CA certificate accepted", Property: "C19", File: tlsf,
+			Old: "\tif err := validateHasCA(certs, pathOrUrl); err != nil {\n\t\treturn nil, err\n\t}\n", New: "\t_ = validateHasCA(certs, pathOrUrl)\n", Expect: "O19.3"},
+		Variant{Name: "second tls.Config built in the mux receiver", Property: "C19", File: rcv,
+			Old: "\t\ttlsWrapper = func(conn net.Conn) net.Conn { return tls.Server(conn, tlsConfig) }", New: "\t\tweak := &tls.Config{Certificates: tlsConfig.Certificates}\n\t\ttlsWrapper = func(conn net.Conn) net.Conn { return tls.Server(conn, weak) }", Expect: "O19.4"},
+		Variant{Name: "mux receiver skips wrapping when no CA is configured", Property: "C19", File: rcv,
+			Old: "\tif tlsCfg := setting.TLSConfig; tlsCfg.IsEnabled() {\n\t\ttlsConfig, err := encryption.GetServerTLSConfig(tlsCfg, logger)", New: "\tif tlsCfg := setting.TLSConfig; tlsCfg.IsEnabled() && tlsCfg.RemoteCAPath != \"\" {\n\t\ttlsConfig, err := encryption.GetServerTLSConfig(tlsCfg, logger)", Expect: "O19.4"},
+		Variant{Name: "server name not pinned", Property: "C19", File: tlsf,
+			Old: "\t\ttlsConfig.ServerName = clientConfig.CAServerName\n", New: "", Expect: "O19.2"},
+	)
 }
